@@ -97,12 +97,33 @@ def run(chk):
     chk.rule("R1v", "verb validation interpreted on stub tables (select, group_by, slice_head, rename): every rejection rule fires with the documented exception, the accepted neighbours are accepted")
     chk.rule("R2", "checks on nested constructs iterate a subtree traversal; iter_children and map_children cover the same attributes")
     chk.rule("R3", "eager validation: ColFn / CaseExpr / Cast constructors call dtype(); preprocess_arg forces dtype() and ftype()")
+    chk.rule("R1t", "Table column access interpreted on a stub cache (visible / hidden / foreign columns, names, C.name, references): documented result or ColumnNotFoundError")
     chk.rule("R4", "no exception object is constructed and then dropped")
     chk.rule("R5", "identity-map lookups cannot raise a bare KeyError (K2); internal `assert isinstance` holds for every resolved caller (A16)")
     chk.rule("R6", "errors raised by a verb carry the documented public exception types (errors module) and leave the input untouched")
 
+    # ---- R1t: the column-access contract of Table, decided by interpretation (tablesim)
+    from ..interp import PyRaise, SymbolicBranch
+    from ..tablesim import table_scenarios
+
+    table_decided = False
+    tmod = repo.mod("pipe.table")
+    try:
+        res_t = table_scenarios(repo)
+        table_decided = True
+        for acc, desc, ok_, detail in res_t:
+            chk.ob("R1t", tmod, tmod.func(acc), f"{acc}: {desc}", ok_, f"column access on a table: {detail}")
+        chk.floor("R1t", "table accessor scenarios", len(res_t), 18)
+    except (AnalysisError, SymbolicBranch) as e:
+        chk.note(f"R1t: the Table accessors could not be interpreted ({str(e)[:140]}); judged by rule instances")
+    except PyRaise as p_:
+        table_decided = True
+        chk.ob("R1t", tmod, tmod.func("Table.__getattr__"), "Table accessors on the stub table", False, f"building the stub table raises {p_.name}: {p_.msg}")
+
     # ---- R1
     for iid, short, fq, exc, needles, what in INSTANCES:
+        if table_decided and iid in ("table-getattr", "table-getitem"):
+            continue  # decided by R1t
         mod = repo.mod(short)
         f = mod.func(fq)
         hit = None
@@ -121,7 +142,7 @@ def run(chk):
         chk.ob("R1", mod, hit or f, f"{iid}: {what} -> {exc}", hit is not None,
                f"rule instance `{iid}`: `{fq}` has no `raise {exc}` controlled by a test mentioning {needles}: {what} is no longer "
                "rejected by the verb call with the documented exception")  # fmt: skip
-    chk.floor("R1", "rule instances", len(INSTANCES), 25)
+    chk.floor("R1", "rule instances", len(INSTANCES), 23)
 
     _verb_scenarios(chk)
 
